@@ -100,7 +100,17 @@ def walk(a: Any, b: Any, path: str, out: list[tuple[str, Any, Any]]) -> None:
 OPS = ["copy", "deepcopy"] + [f"pickle{p}" for p in range(pickle.HIGHEST_PROTOCOL + 1)]
 
 
+STATE_OPS = ["updated-nothing", "updated-other", "updated-same"]  # a State's own way of copying itself
+
+
 def apply(op: str, v: Any) -> Any:
+    if op.startswith("updated"):
+        seq = isinstance(v, globals()["SeqHolder"])
+        if op == "updated-nothing":
+            return v.updated()
+        if op == "updated-other":
+            return v.updated(items=v.items) if seq else v.updated(tag=7)
+        return v.updated(opt=v.opt) if seq else v.updated(value=v.value)  # the attribute that holds (or wraps) the missing value, as it is
     if op == "copy":
         return copy.copy(v)
     if op == "deepcopy":
@@ -361,7 +371,7 @@ def run(R: Recorder, tier: str, seed: int, shard: int, nshards: int) -> None:
             v: Any = M
             for kind in reversed(chain):
                 v = wrap(kind, v)
-            for op in OPS:
+            for op in OPS + (STATE_OPS if chain and chain[0] in ("state", "barestate", "stateseq") else []):
                 check_roundtrip(R, list(chain), v, op, depth)
             # a variant with a look-alike sibling next to the innermost MISSING
             if depth >= 1:
